@@ -168,12 +168,14 @@ def deliver(ep, data, cuts=()):
         prev = c
 
 
-def drain(clock, steps=50, dt=0.0):
-    """run pending zero-delay calls (queued/chopped writes are drained through call_later)"""
+def drain(clock, steps=400, dt=0.001):
+    """run pending near-zero-delay calls (queued/chopped writes are drained through call_later with a
+    10 microsecond delay); timers further than `dt` in the future are left alone"""
     for _ in range(steps):
-        if not clock.getDelayedCalls():
+        calls = clock.getDelayedCalls()
+        if not calls:
             break
-        nxt = min(c.getTime() for c in clock.getDelayedCalls())
+        nxt = min(c.getTime() for c in calls)
         if nxt - clock.seconds() > dt:
             break
         clock.advance(max(0.0, nxt - clock.seconds()))
